@@ -323,6 +323,7 @@ func Build(v reflect.Value, a AVal) error {
 
 // ---- seeded random values -------------------------------------------------
 
+var mustEscapeStrings = []string{"with \"quote\"", "back\\slash", "new\nline", "tab\t", "\u0001ctl", "\u0000", "\u001f\u007f", "\r\n", "\b\f", "\"", "\\"}
 var trickyStrings = []string{"", "a", "abc", "a b", "with \"quote\"", "back\\slash", "new\nline", "tab\t", "\u0001ctl", "é☃", "\U0001F600", "</script>&<>", "null", "true", "0", "{}", "a/b?c=d&e#f", "100%", "+plus+", "ключ", "a,b", "Doe, John", ",", "x;y=1",
 	// text that looks like an escape of some layer but is just text: JSON \u escapes and short escapes spelled out,
 	// percent-escapes, HTML entities, a Go format verb
@@ -392,7 +393,12 @@ func RandomFill(v reflect.Value, r *rand.Rand, depth int) {
 			v.SetString(strings.Repeat("long-", 1200))
 			return
 		}
-		v.SetString(trickyStrings[r.Intn(len(trickyStrings))])
+		if r.Intn(4) == 0 {
+			// (a quarter of the strings need escaping in JSON: the pool has grown, these must not thin out)
+			v.SetString(mustEscapeStrings[r.Intn(len(mustEscapeStrings))])
+		} else {
+			v.SetString(trickyStrings[r.Intn(len(trickyStrings))])
+		}
 	case reflect.Slice:
 		n := r.Intn(4) - 1 // -1: leave the slice nil (the zero value a handler that never appended returns)
 		if depth <= 1 && r.Intn(80) == 0 {
